@@ -118,6 +118,11 @@ def run_layout_case(ctx, idx):
                 out1 = cli.compress(path_in=pin, path_out=tmp / "o1.rtdc", ret_path=True)
                 out2 = cli.compress(path_in=out1, path_out=tmp / "o2.rtdc", ret_path=True)
                 data_equal(ctx, out1, out2, task, case)
+                if rng.random() < 0.5:
+                    # a third and fourth run: the command logs of all earlier runs are kept
+                    out3 = cli.compress(path_in=out2, path_out=tmp / "o3.rtdc", ret_path=True)
+                    cli.compress(path_in=out3, path_out=tmp / "o4.rtdc", ret_path=True)
+                    ctx.count("compress_chains_of_four")
                 topts = {}
             elif task == "repack":
                 topts = {"strip_logs": bool(rng.random() < 0.3),
